@@ -1,6 +1,9 @@
 package main
 
 import (
+	"context"
+	"os/exec"
+	"regexp"
 	"go/types"
 	"encoding/json"
 	"flag"
@@ -344,6 +347,10 @@ func runCheck(o checkOpts) (int, *checkOutcome) {
 			continue
 		}
 		funcsUnder = append(funcsUnder, shortPkg(t.pkg)+"."+t.c.name)
+		if x.replayTargets == nil {
+			x.replayTargets = map[string]replayTarget{}
+		}
+		x.replayTargets[fn.String()] = replayTarget{fn, t.c}
 		tt := time.Now()
 		if err := x.VerifyFunc(fn, t.c); err != nil {
 			out.genErrors = append(out.genErrors, err.Error())
@@ -623,8 +630,260 @@ func trunc(s string, n int) string {
 	return s
 }
 
-func (x *Exec) tryReplay(prop string, cfg *PropCfg, r *SolveResult, ob *Oblig, rep map[string]any) bool {
+// tryReplay re-executes a counterexample on the real code where that can be done generically: a
+// postcondition of a function whose parameters (and value receiver) are scalars and whose results are
+// scalars or errors, with a contract that reads nothing but those. The model's inputs are passed to the real
+// function in an in-package test injected with `go test -overlay` (nothing is written to /repo); the
+// contract's preconditions and the refuted postcondition are then evaluated on the inputs and the values the
+// real code returned. Confirmed = preconditions true and postcondition false on the real execution.
+func (x *Exec) tryReplay(prop string, cfg *PropCfg, r *SolveResult, ob *Oblig, rep map[string]any) (confirmed bool) {
+	defer func() {
+		if e := recover(); e != nil {
+			rep["replay_note"] = fmt.Sprintf("replay not possible: %v", e)
+			confirmed = false
+		}
+	}()
+	if r.Kind != "post" || os.Getenv("GOWP_NOREPLAY") != "" {
+		return false
+	}
+	rt, ok := x.replayTargets[ob.fn]
+	if !ok || rt.fn.Pkg == nil {
+		return false
+	}
+	fn, c := rt.fn, rt.c
+	isScalar := func(t types.Type) bool {
+		b, ok := t.Underlying().(*types.Basic)
+		return ok && b.Info()&(types.IsInteger|types.IsBoolean) != 0
+	}
+	sig := fn.Signature
+	var clause *Clause
+	for i, en := range c.ensures {
+		if strings.HasSuffix(r.Name, fmt.Sprintf("#%d", i+1)) && en.text == ob.clause {
+			clause = en
+		}
+	}
+	if clause == nil {
+		return false
+	}
+	for _, p := range fn.Params {
+		if !isScalar(p.Type()) {
+			rep["replay_note"] = "replay not possible generically: parameter " + p.Name() + " is not a scalar"
+			return false
+		}
+	}
+	// inputs from the model
+	vals := parseModelConsts(r.Model)
+	vars := map[string]SV{}
+	var argTexts []string
+	inputs := map[string]string{}
+	for _, p := range fn.Params {
+		v, ok := vals["in_"+p.Name()]
+		if !ok {
+			v = "0" // not mentioned by the model: any value will do
+		}
+		b := p.Type().Underlying().(*types.Basic)
+		tn := types.TypeString(p.Type(), func(pk *types.Package) string {
+			if pk == fn.Pkg.Pkg {
+				return ""
+			}
+			return pk.Name()
+		})
+		var sv SV
+		var lit string
+		if b.Info()&types.IsBoolean != 0 {
+			bv := v == "true"
+			sv = scalarSV(p.Type(), boolTerm(bv))
+			lit = fmt.Sprintf("%s(%t)", tn, bv)
+		} else {
+			u, _ := strconv.ParseUint(v, 10, 64)
+			w := leavesOf(p.Type())[0].sort.bv
+			sv = scalarSV(p.Type(), mkBVu(u&widthMask(w), w))
+			if b.Info()&types.IsUnsigned != 0 {
+				lit = fmt.Sprintf("%s(%d)", tn, u&widthMask(w))
+			} else {
+				lit = fmt.Sprintf("%s(%d)", tn, signExtend(u, w))
+			}
+		}
+		vars[p.Name()] = sv
+		inputs[p.Name()] = lit
+		argTexts = append(argTexts, lit)
+	}
+	// the call
+	call := fn.Name() + "(" + strings.Join(argTexts, ", ") + ")"
+	if sig.Recv() != nil {
+		call = "(" + argTexts[0] + ")." + fn.Name() + "(" + strings.Join(argTexts[1:], ", ") + ")"
+	}
+	rs := sig.Results()
+	var lhs, prints []string
+	for i := 0; i < rs.Len(); i++ {
+		t := rs.At(i).Type()
+		lhs = append(lhs, fmt.Sprintf("r%d", i))
+		switch {
+		case isScalar(t) && t.Underlying().(*types.Basic).Info()&types.IsBoolean != 0:
+			prints = append(prints, fmt.Sprintf("fmt.Sprint(bool(r%d))", i))
+		case isScalar(t) && t.Underlying().(*types.Basic).Info()&types.IsUnsigned != 0:
+			prints = append(prints, fmt.Sprintf("fmt.Sprint(uint64(r%d))", i))
+		case isScalar(t):
+			prints = append(prints, fmt.Sprintf("fmt.Sprint(uint64(int64(r%d)))", i))
+		case types.Identical(t, types.Universe.Lookup("error").Type()):
+			prints = append(prints, fmt.Sprintf("fmt.Sprint(r%d != nil)", i))
+		default:
+			rep["replay_note"] = "replay not possible generically: result is neither scalar nor error"
+			return false
+		}
+	}
+	if rs.Len() == 0 {
+		return false
+	}
+	src := "package " + fn.Pkg.Pkg.Name() + "\n\nimport (\n\t\"fmt\"\n\t\"strings\"\n\t\"testing\"\n)\n\n" +
+		"func TestGowpReplay(t *testing.T) {\n\t" + strings.Join(lhs, ", ") + " := " + call + "\n" +
+		"\tfmt.Println(\"GOWP-REPLAY\", strings.Join([]string{" + strings.Join(prints, ", ") + "}, \" \"))\n}\n"
+	rel := strings.TrimPrefix(fn.Pkg.Pkg.Path(), "github.com/scionproto/scion/")
+	pkgDir := filepath.Join(repoDir, rel)
+	tmp, err := os.MkdirTemp("", "gowp-replay-")
+	if err != nil {
+		return false
+	}
+	defer os.RemoveAll(tmp)
+	tf := filepath.Join(tmp, "zz_gowp_replay_test.go")
+	os.WriteFile(tf, []byte(src), 0o644)
+	ov, _ := json.Marshal(map[string]any{"Replace": map[string]string{filepath.Join(pkgDir, "zz_gowp_replay_test.go"): tf}})
+	ovf := filepath.Join(tmp, "overlay.json")
+	os.WriteFile(ovf, ov, 0o644)
+	ctx, cancel := context.WithTimeout(context.Background(), 180*time.Second)
+	defer cancel()
+	cmd := exec.CommandContext(ctx, "go", "test", "-overlay", ovf, "-vet=off", "-count=1", "-timeout", "60s", "-run", "^TestGowpReplay$", "./"+rel)
+	cmd.Dir = repoDir
+	cmd.Env = append(os.Environ(), "GOFLAGS=-mod=mod", "GOPROXY=off", "GOSUMDB=off")
+	outb, _ := cmd.CombinedOutput()
+	rep["replay_test"] = src
+	rep["replay_inputs"] = inputs
+	line := ""
+	for _, l := range strings.Split(string(outb), "\n") {
+		if strings.HasPrefix(l, "GOWP-REPLAY ") {
+			line = strings.TrimPrefix(l, "GOWP-REPLAY ")
+		}
+	}
+	if line == "" {
+		rep["replay_note"] = "replay test did not produce a result: " + trunc(string(outb), 2000)
+		return false
+	}
+	rep["replay_real_results"] = line
+	fs := strings.Fields(line)
+	if len(fs) != rs.Len() {
+		return false
+	}
+	var results []SV
+	for i := 0; i < rs.Len(); i++ {
+		t := rs.At(i).Type()
+		switch {
+		case isScalar(t) && t.Underlying().(*types.Basic).Info()&types.IsBoolean != 0:
+			results = append(results, scalarSV(t, boolTerm(fs[i] == "true")))
+		case isScalar(t):
+			u, _ := strconv.ParseUint(fs[i], 10, 64)
+			w := leavesOf(t)[0].sort.bv
+			results = append(results, scalarSV(t, mkBVu(u&widthMask(w), w)))
+		default: // error: only nil-ness is observed
+			sv := freshSV(t, "replay_err")
+			if fs[i] == "true" {
+				sv.l[0] = mkBV(1, 32)
+			} else {
+				for k := range sv.l {
+					sv.l[k] = mkBV(0, sv.l[k].sort.bv)
+				}
+			}
+			results = append(results, sv)
+		}
+	}
+	bindResults(vars, sig, results)
+	nf := 0
+	st := &State{heap: map[string]*Term{}, pcset: map[int]bool{}, nfresh: &nf, lets: map[string]SV{}}
+	st.entry = st
+	env := &Env{x: x, st: st, oldSt: st, vars: vars, pkg: fn.Pkg.Pkg}
+	for _, l := range c.lets {
+		v, e := env.EvalAny(l.expr, nil)
+		if e != nil {
+			rep["replay_note"] = "replay: let " + l.name + ": " + e.Error()
+			return false
+		}
+		vars[l.name] = v
+	}
+	for _, rq := range c.requires {
+		t, e := env.EvalBool(rq.expr)
+		if e != nil || t != True {
+			rep["replay_note"] = "replay: the model's inputs do not satisfy the precondition syntactically (" + rq.text + ")"
+			return false
+		}
+	}
+	t, e := env.EvalBool(clause.expr)
+	if e != nil {
+		rep["replay_note"] = "replay: postcondition not evaluable on concrete values: " + e.Error()
+		return false
+	}
+	if t == False {
+		rep["replayed"] = true
+		rep["replay_note"] = "the real function, run on the model's inputs, returned values for which the postcondition is false"
+		return true
+	}
+	if t == True {
+		rep["replay_note"] = "the real function satisfies the postcondition on the model's inputs (the model does not reflect the real code)"
+	} else {
+		rep["replay_note"] = "postcondition does not reduce to a constant on the concrete values (uninterpreted symbols)"
+	}
 	return false
+}
+
+type replayTarget struct {
+	fn *ssa.Function
+	c  *FuncContract
+}
+
+func boolTerm(b bool) *Term {
+	if b {
+		return True
+	}
+	return False
+}
+
+func widthMask(w int) uint64 {
+	if w >= 64 {
+		return ^uint64(0)
+	}
+	return (uint64(1) << uint(w)) - 1
+}
+
+func signExtend(u uint64, w int) int64 {
+	if w >= 64 {
+		return int64(u)
+	}
+	u &= widthMask(w)
+	if u&(uint64(1)<<uint(w-1)) != 0 {
+		return int64(u | ^widthMask(w))
+	}
+	return int64(u)
+}
+
+var modelConstRe = regexp.MustCompile(`\(define-fun\s+(\|[^|]+\||[^\s()]+)\s+\(\)\s+(\(_ BitVec \d+\)|Bool)\s+(#x[0-9a-fA-F]+|#b[01]+|true|false)\)`)
+
+// parseModelConsts reads the constants of a solver model (z3 and cvc5 print define-fun name () sort value).
+func parseModelConsts(model string) map[string]string {
+	out := map[string]string{}
+	flat := strings.Join(strings.Fields(model), " ")
+	for _, m := range modelConstRe.FindAllStringSubmatch(flat, -1) {
+		name := strings.Trim(m[1], "|")
+		v := m[3]
+		switch {
+		case strings.HasPrefix(v, "#x"):
+			u, _ := strconv.ParseUint(v[2:], 16, 64)
+			out[name] = strconv.FormatUint(u, 10)
+		case strings.HasPrefix(v, "#b"):
+			u, _ := strconv.ParseUint(v[2:], 2, 64)
+			out[name] = strconv.FormatUint(u, 10)
+		default:
+			out[name] = v
+		}
+	}
+	return out
 }
 
 func maxI64(a, b int64) int64 {
